@@ -142,7 +142,7 @@ Fixpoint items_json (st : storev) (c : config) (second : bool) (s : sel) : optio
   | SComp l => complex (LIT "http://www.w3.org/ns/oa#Composite") l
   | SMulti l => complex (LIT "http://www.w3.org/ns/oa#Independents") l
   | SDir l => complex (LIT "http://www.w3.org/ns/oa#List") l
-  | SKey | SData => Some []        (* skipped, with a warning: see Known_C17_nested_unexportable *)
+  | SKey | SData => Some []        (* skipped, with a warning: contributes no item *)
   | SRTxt r b e => all_some (map (fun t => leaf_json st c second r t) (seq b (S e - b)))
   | SRAnn b e wt =>
       all_some (map (fun a =>
@@ -303,23 +303,6 @@ Fixpoint value_dates_plain (v : value) : bool :=
   | _ => true
   end.
 
-(* class 3: a data key / data selector inside a complex selector *)
-Fixpoint no_nested_unexportable (s : sel) : bool :=
-  match s with
-  | SKey | SData => false
-  | SMulti l | SComp l | SDir l => forallb no_nested_unexportable l
-  | _ => true
-  end.
-
-(* store invariant: an internal ranged selector covers at least one handle *)
-Fixpoint ranges_ok (s : sel) : bool :=
-  match s with
-  | SRTxt _ b e => Nat.leb b e
-  | SRAnn b e _ => Nat.leb b e
-  | SMulti l | SComp l | SDir l => forallb ranges_ok l
-  | _ => true
-  end.
-
 (* class 5: a target annotation without public identifier *)
 Definition ann_has_id (st : storev) (a : nat) : bool :=
   match get_ann st a with Some av => is_some (a_id av) | None => false end.
@@ -347,8 +330,6 @@ Definition value_ok (d : datum) : bool := value_finite (d_val d) && value_dates_
 Definition Known_C17_nonfinite (av : annv) : bool :=
   negb (forallb (fun d => value_finite (d_val d)) (a_data av)).
 Definition Known_C17_config_chars (c : config) : bool := negb (cfg_plain c).
-Definition Known_C17_nested_unexportable (av : annv) : bool :=
-  accepted av && negb (no_nested_unexportable (a_target av)).
 Definition Known_C17_anonymous_target (st : storev) (av : annv) : bool :=
   negb (targets_named st (a_target av)).
 (* Known_C17_duplicate_names is about the tree as a JSON reader sees it: see has_dup_keys below *)
